@@ -745,3 +745,192 @@ Lemma rewrite_misaligned_refuted_lemma :
   | None => False
   end.
 Proof. vm_compute. repeat split. Qed.
+
+(* ------------------------------------------------------------------ order per target module *)
+Definition gnames (M : option pystr) (g : list (pystr * list alias)) : list alias :=
+  flat_map (fun kv => sel M (Some (fst kv)) (snd kv)) g.
+
+Lemma str_eqb_neq a b : str_eqb a b = false -> a <> b.
+Proof. intros H ->. rewrite str_eqb_refl in H. discriminate. Qed.
+
+Lemma opt_str_eqb_eq a b : option_eqb str_eqb a b = true -> a = b.
+Proof. apply option_eqb_eq. apply str_eqb_eq. Qed.
+
+Lemma gnames_notin M k g : M = Some k -> ~ In k (map fst g) -> gnames M g = [].
+Proof.
+  intros -> H. induction g as [|[k' vs] g IH]; simpl; auto.
+  simpl in H. unfold sel at 1. simpl.
+  destruct (str_eqb k k') eqn:E.
+  - apply str_eqb_eq in E. subst. exfalso. apply H. left. reflexivity.
+  - apply IH. intros X. apply H. right. exact X.
+Qed.
+
+Lemma dd_add_keys k v g x : In x (map fst (dd_add k v g)) -> x = k \/ In x (map fst g).
+Proof.
+  induction g as [|[k' vs] g IH]; simpl.
+  - intros [<-|[]]. left. reflexivity.
+  - destruct (str_eqb k k'); simpl; intros [<-|H]; auto.
+    destruct (IH H); auto.
+Qed.
+
+Lemma dd_add_nodup k v g : NoDup (map fst g) -> NoDup (map fst (dd_add k v g)).
+Proof.
+  induction g as [|[k' vs] g IH]; simpl; intros H.
+  - constructor; [intros [] | constructor].
+  - inversion H as [|x l Hn Hd]. subst. destruct (str_eqb k k') eqn:E; simpl.
+    + constructor; auto.
+    + constructor; auto. intros X. apply dd_add_keys in X. destruct X as [->|X]; auto.
+      rewrite str_eqb_refl in E. discriminate.
+Qed.
+
+Lemma gnames_dd_add M k v g : NoDup (map fst g) ->
+  gnames M (dd_add k v g) = gnames M g ++ sel M (Some k) [v].
+Proof.
+  induction g as [|[k' vs] g IH]; simpl; intros H.
+  - rewrite app_nil_r. reflexivity.
+  - inversion H as [|x l Hn Hd]. subst. destruct (str_eqb k k') eqn:E; simpl.
+    + apply str_eqb_eq in E. subst k'. unfold sel. simpl fst. simpl snd.
+      destruct (option_eqb str_eqb M (Some k)) eqn:EM.
+      * apply opt_str_eqb_eq in EM. rewrite (gnames_notin M k g EM Hn).
+        rewrite !app_nil_r. reflexivity.
+      * simpl. rewrite app_nil_r. reflexivity.
+    + rewrite (IH Hd). rewrite app_assoc. reflexivity.
+Qed.
+
+Lemma names_from_groups M (g : list (pystr * list alias)) :
+  names_from M (map (fun g => ImportFrom 0 (Some (fst g)) (snd g)) g) = gnames M g.
+Proof. induction g as [|[k vs] g IH]; simpl; auto. rewrite IH. reflexivity. Qed.
+
+Lemma fold_step_order mp m M ns :
+  (forall n nm nn, lookup2 mp m n = Some (nm, nn) -> Some nm <> m) ->
+  forall g u, NoDup (map fst g) ->
+    NoDup (map fst (fst (fold_left (rw_step mp m) ns (g, u)))) /\
+    gnames M (fst (fold_left (rw_step mp m) ns (g, u))) ++ sel M m (snd (fold_left (rw_step mp m) ns (g, u)))
+    = gnames M g ++ sel M m u ++ flat_map (contrib mp m M) ns.
+Proof.
+  intros Side. induction ns as [|a ns IH]; intros g u ND.
+  - simpl. split; auto. rewrite app_nil_r. reflexivity.
+  - cbn [fold_left flat_map].
+    assert (S : rw_step mp m (g, u) a =
+                match lookup2 mp m (fst a) with
+                | Some (nm, nn) => (dd_add nm (nn, snd a) g, u)
+                | None => (g, u ++ [a])
+                end).
+    { unfold rw_step. simpl fst. simpl snd. destruct (lookup2 mp m (fst a)) as [[nm nn]|]; reflexivity. }
+    rewrite S. clear S. unfold contrib at 1.
+    destruct (lookup2 mp m (fst a)) as [[nm nn]|] eqn:L.
+    + destruct (IH (dd_add nm (nn, snd a) g) u (dd_add_nodup _ _ _ ND)) as [N1 E1].
+      split; [exact N1|]. rewrite E1. rewrite (gnames_dd_add M nm (nn, snd a) g ND).
+      unfold sel. destruct (option_eqb str_eqb M (Some nm)) eqn:EM.
+      * apply opt_str_eqb_eq in EM.
+        assert (X : option_eqb str_eqb M m = false).
+        { destruct (option_eqb str_eqb M m) eqn:Y; auto. apply opt_str_eqb_eq in Y.
+          exfalso. apply (Side _ _ _ L). congruence. }
+        rewrite X. simpl. rewrite <- app_assoc. reflexivity.
+      * rewrite app_nil_r. reflexivity.
+    + destruct (IH g (u ++ [a]) ND) as [N1 E1].
+      split; [exact N1|]. rewrite E1.
+      unfold sel. destruct (option_eqb str_eqb M m); simpl; auto.
+      rewrite <- app_assoc. reflexivity.
+Qed.
+
+(* the names imported from each module M by the replacement statements are, in the original
+   order, exactly the names whose target module is M *)
+Lemma rewrite_import_order_lemma mp m ns M :
+  (forall n nm nn, lookup2 mp m n = Some (nm, nn) -> Some nm <> m) ->
+  names_from M (rewrite_import mp m ns) = flat_map (contrib mp m M) ns.
+Proof.
+  intros Side. unfold rewrite_import.
+  destruct (fold_step_order mp m M ns Side [] [] (NoDup_nil _)) as [_ E]. simpl in E.
+  destruct (fold_left (rw_step mp m) ns ([], [])) as [g u]. simpl fst in *. simpl snd in *.
+  unfold names_from. rewrite flat_map_app. fold (names_from M (map (fun g0 => ImportFrom 0 (Some (fst g0)) (snd g0)) g)).
+  assert (SN : sel M m [] = []) by (unfold sel; destruct (option_eqb str_eqb M m); reflexivity).
+  rewrite SN in E. simpl in E. rewrite <- E. rewrite names_from_groups. f_equal.
+  destruct u; simpl; [rewrite SN; reflexivity|]. rewrite app_nil_r. reflexivity.
+Qed.
+
+Lemma gen_targets_differ m : forall n nm nn, lookup2 gen_mapping m n = Some (nm, nn) -> Some nm <> m.
+Proof.
+  intros n nm nn E. destruct m as [m|]; [|discriminate].
+  pose proof (lookup2_In _ _ _ _ E) as HI. apply entries_sane in HI. destruct HI as [_ HN].
+  intros X. inversion X. subst nm.
+  unfold lookup2 in E. rewrite HN in E. discriminate.
+Qed.
+
+Lemma rewrite_import_order_gen m ns M :
+  names_from M (rewrite_import gen_mapping m ns) = flat_map (contrib gen_mapping m M) ns.
+Proof. apply rewrite_import_order_lemma. apply gen_targets_differ. Qed.
+
+(* ------------------------------------------------------------------ a second run is stable *)
+Lemma fold_unmapped mp m ns : (forall a, In a ns -> lookup2 mp m (fst a) = None) ->
+  forall g u, fold_left (rw_step mp m) ns (g, u) = (g, u ++ ns).
+Proof.
+  induction ns as [|a ns IH]; intros H g u; simpl.
+  - rewrite app_nil_r. reflexivity.
+  - unfold rw_step at 2. simpl fst. simpl snd. rewrite (H a (or_introl eq_refl)).
+    rewrite IH by (intros x Hx; apply H; right; exact Hx).
+    rewrite <- app_assoc. reflexivity.
+Qed.
+
+Lemma rewrite_import_unmapped mp m ns : (forall a, In a ns -> lookup2 mp m (fst a) = None) ->
+  ns <> [] -> rewrite_import mp m ns = [ImportFrom 0 m ns].
+Proof.
+  intros H N. unfold rewrite_import. rewrite (fold_unmapped mp m ns H [] []). simpl.
+  destruct ns; [congruence | reflexivity].
+Qed.
+
+Definition group_fixed (mp : mapping_t) (kv : pystr * list alias) : Prop :=
+  assoc (fst kv) mp = None /\ snd kv <> [].
+
+Lemma dd_add_fixed mp k v g : assoc k mp = None -> Forall (group_fixed mp) g ->
+  Forall (group_fixed mp) (dd_add k v g).
+Proof.
+  intros K. induction g as [|[k' vs] g IH]; simpl; intros H.
+  - constructor; [split; [exact K | discriminate] | constructor].
+  - inversion H as [|x l HH H3]. subst. destruct HH as [H1 H2]. destruct (str_eqb k k').
+    + constructor; auto. split; [exact H1|]. simpl. destruct vs; discriminate.
+    + constructor; auto. split; auto.
+Qed.
+
+Lemma fold_fixed mp m ns :
+  (forall n nm nn, lookup2 mp m n = Some (nm, nn) -> assoc nm mp = None) ->
+  forall g u, Forall (group_fixed mp) g -> (forall a, In a u -> lookup2 mp m (fst a) = None) ->
+    Forall (group_fixed mp) (fst (fold_left (rw_step mp m) ns (g, u))) /\
+    (forall a, In a (snd (fold_left (rw_step mp m) ns (g, u))) -> lookup2 mp m (fst a) = None).
+Proof.
+  intros Side. induction ns as [|a ns IH]; intros g u HG HU; simpl; [split; assumption|].
+  unfold rw_step at 2 4. simpl fst. simpl snd.
+  destruct (lookup2 mp m (fst a)) as [[nm nn]|] eqn:L.
+  - apply IH; auto. apply dd_add_fixed; auto. eapply Side. exact L.
+  - apply IH; auto. intros x Hx. apply in_app_or in Hx. destruct Hx as [Hx|[<-|[]]]; auto.
+Qed.
+
+Lemma rewrite_twice_stable_lemma mp m ns :
+  (forall n nm nn, lookup2 mp m n = Some (nm, nn) -> assoc nm mp = None) ->
+  flat_map (rewrite_stmt mp) (rewrite_import mp m ns) = rewrite_import mp m ns.
+Proof.
+  intros Side. unfold rewrite_import.
+  destruct (fold_fixed mp m ns Side [] [] (Forall_nil _) (fun a (H : In a []) => match H with end)) as [HG HU].
+  cbv zeta. remember (fold_left (rw_step mp m) ns ([], [])) as acc eqn:EA. clear EA.
+  destruct acc as [g u]. simpl fst in *. simpl snd in *.
+  rewrite flat_map_app. f_equal.
+  - induction g as [|[k vs] g IH]; simpl; auto.
+    inversion HG as [|x l HH H3]. subst. destruct HH as [H1 H2]. simpl in H1, H2.
+    rewrite (IH H3). rewrite rewrite_import_unmapped; auto.
+    intros a _. unfold lookup2. rewrite H1. reflexivity.
+  - destruct u as [|a u]; simpl; auto. rewrite app_nil_r.
+    apply rewrite_import_unmapped; [exact HU | discriminate].
+Qed.
+
+Lemma rewrite_twice_stable_gen m ns :
+  flat_map (rewrite_stmt gen_mapping) (rewrite_import gen_mapping m ns) = rewrite_import gen_mapping m ns.
+Proof.
+  apply rewrite_twice_stable_lemma. intros n nm nn E. destruct m as [m|]; [|discriminate].
+  apply lookup2_In in E. apply entries_sane in E. apply E.
+Qed.
+
+Lemma rewrite_stmt_twice_gen s :
+  flat_map (rewrite_stmt gen_mapping) (rewrite_stmt gen_mapping s) = rewrite_stmt gen_mapping s.
+Proof.
+  destruct s as [[|l] m ns|i]; simpl; try reflexivity. apply rewrite_twice_stable_gen.
+Qed.
